@@ -5,28 +5,7 @@ use crate::alloc::guarded;
 use core::time::Duration;
 use helgoboss_midi::*;
 use serde_json::{json, Map, Value};
-
-/// A third-party implementor of `ShortMessage` that provides only the three byte getters.
-#[derive(Copy, Clone, Debug, PartialEq, Eq)]
-pub struct Foreign(pub u8, pub u8, pub u8);
-
-impl ShortMessage for Foreign {
-    fn status_byte(&self) -> u8 {
-        self.0
-    }
-    fn data_byte_1(&self) -> U7 {
-        U7::new(self.1)
-    }
-    fn data_byte_2(&self) -> U7 {
-        U7::new(self.2)
-    }
-}
-
-impl ShortMessageFactory for Foreign {
-    unsafe fn from_bytes_unchecked(bytes: (u8, U7, U7)) -> Self {
-        Foreign(bytes.0, bytes.1.get(), bytes.2.get())
-    }
-}
+pub use crate::basics::{cc14_report, pn_report, Foreign};
 
 #[derive(Copy, Clone, PartialEq, Eq, Debug)]
 pub enum Scanner {
@@ -53,30 +32,6 @@ pub fn duration_of(to: i64) -> Duration {
     } else {
         Duration::from_micros(to as u64 * 500)
     }
-}
-
-pub fn cc14_report(m: &ControlChange14BitMessage) -> Value {
-    json!([
-        m.channel().get(),
-        m.msb_controller_number().get(),
-        m.value().get()
-    ])
-}
-
-pub fn pn_report(m: &ParameterNumberMessage) -> Value {
-    let dt = match m.data_type() {
-        DataType::DataEntry => 0,
-        DataType::DataIncrement => 1,
-        DataType::DataDecrement => 2,
-    };
-    json!([
-        m.channel().get(),
-        m.number().get(),
-        m.value().get(),
-        m.is_registered() as u8,
-        m.is_14_bit() as u8,
-        dt
-    ])
 }
 
 pub struct CallResult {
